@@ -4,6 +4,7 @@
 import BorshModel.SchemaOf
 import BorshModel.Lemmas.ContainerCodec
 import BorshModel.Theorems.C01
+import BorshModel.Lemmas.SchemaSorted
 namespace Borsh
 
 theorem Out.bind_eq_ok' {α β : Type} {x : Out α} {f : α → Out β} {b : β}
@@ -75,6 +76,59 @@ theorem C17_roundtrip_partial (st : Bool) (u : Ty) (v : Val) (bs : Bytes) (cu : 
   simp only [List.append_nil] at h3
   rw [h3]
   simp [hs, Res.toOut, canon_container cu hc, containerOfVal_toVal]
+
+/-- **A foreign schema is rejected**: what `try_to_vec_with_schema::<T>` wrote is never accepted
+by `try_from_slice_with_schema::<U>` when the two types' schemas differ — whatever the value, even
+when `U` can decode `T`'s value bytes (same width, same shape), in both key-order modes. -/
+theorem C17_foreign_rejected (st : Bool) (t u : Ty) (v : Val) (bs : Bytes) (ct cu : Container)
+    (hst : schemaOf t = .ok ct) (hsu : schemaOf u = .ok cu) (hne : ct ≠ cu)
+    (hc : HasTy containerTy (containerToVal ct) = true)
+    (he : tryToVecWithSchema t v = .ok bs) :
+    (tryFromSliceWithSchema st u bs).isOk = false := by
+  cases hr : tryFromSliceWithSchema st u bs with
+  | err e => rfl
+  | panic p => rfl
+  | ok x =>
+    exfalso
+    obtain ⟨cv, rest, cu', h1, _, h3, h4⟩ := C17_accept_implies_same_schema st u bs x hr
+    rw [hsu] at h3
+    cases h3
+    -- the embedded container is `T`'s
+    unfold tryToVecWithSchema at he
+    simp only [hst, Res.toOut, Out.bind_ok] at he
+    obtain ⟨cb, hcb, h2⟩ := Out.bind_eq_ok_iff.mp he
+    obtain ⟨vb, _, rfl⟩ := Out.map_eq_ok_iff.mp h2
+    have := C01_roundtrip_stream_partial st containerTy (containerToVal ct) cb vb
+      keysOk_containerTy WfTy_containerTy hc hcb
+    rw [this] at h1
+    simp only [Out.ok.injEq, Prod.mk.injEq] at h1
+    rw [← h1.1, canon_container ct hc, containerOfVal_toVal] at h4
+    exact hne (by simpa using h4)
+
+/-- **Containers round-trip to an equal container**: every container whose `Val` form is well typed
+(UTF-8 names, definitions in ascending name order, widths that fit their fields) — hostile ones
+included — is read back as the very same container, and nothing is left -/
+theorem C17_container_roundtrip (st : Bool) (c : Container) (bs rest : Bytes)
+    (hc : HasTy containerTy (containerToVal c) = true) (he : containerBytes c = .ok bs) :
+    (deserialize st containerTy (bs ++ rest)).map (fun r => (containerOfVal r.1, r.2)) =
+      .ok (some c, rest) := by
+  have := C01_roundtrip_stream_partial st containerTy (containerToVal c) bs rest
+    keysOk_containerTy WfTy_containerTy hc he
+  rw [this]
+  simp [canon_container c hc, containerOfVal_toVal]
+
+/-- **Containers are canonical**: the definitions of the container `for_type` generates are in
+strictly ascending name order — for every type with a schema, derived structs and enums (with the
+derive's "already present" shortcut) included; the container serializer writes them in that order -/
+theorem C17_container_canonical (t : Ty) (c : Container) (h : schemaOf t = .ok c) :
+    c.defs.Pairwise (fun a b => cmpBytes a.1 b.1 = .lt) :=
+  schemaOf_sorted t c h
+
+/-- … and `add_definitions_recursively` only ever adds: a definition present before a call is
+present, unchanged, after it (every type) -/
+theorem C17_definitions_only_added (t : Ty) (m m' : Defs) (hs : DSorted m) (h : addDefs t m = .ok m')
+    (d : Name) (df : Defn) (hd : dget m d = some df) : dget m' d = some df :=
+  (pres_all t m m' hs h).2 d df hd
 
 /-- non-vacuity of `C17_roundtrip_partial`'s hypotheses at a nested keyed type -/
 example :
